@@ -1,7 +1,7 @@
 SPEC_PART = dict(
     props_file="C17_hll",
     legs=[dict(family="hll", focus="extremes", oracles=["prop_ok", "union_ok", "no_panic"], profiles=["debug", "release"],
-               mask=[1, 2, 3, 4, 5, 6, 7, 8, 10, 11, 12, 13, 14, 15, 16, 17, 18, 20, 22, 30, 31], n_quick=16, n_thorough=200,
+               mask=[1, 2, 3, 4, 5, 6, 7, 8, 10, 11, 12, 13, 14, 15, 16, 17, 18, 20, 22, 30, 31], n_quick=16, n_thorough=100,
                panic_is_violation=True)],
     trusted=["hll: the modelled panic sites are new()'s range assert, 'HashSet full', AuxMap's three unreachable!()s, Array4::update's "
              "expect()s / unreachable!() / counter underflow, the debug assertions and the 64-round bound of shift_to_bigger_cur_min, "
